@@ -490,3 +490,28 @@ PROPS["C20"] = dict(
         "data races are reported by the Go race detector only on interleavings that occurred",
     ],
 )
+
+PROPS["C09"] = dict(
+    title="Join and push/pull are mutual, all-or-nothing, vetoable; hearsay never kills",
+    pkg="./props/c09",
+    level="fault_enumeration",
+    rule=("one real node holding two members, as host (a scripted peer dials in) or as joiner (Join to a scripted host); label none/'lbl', encryption, "
+          "compression, merge delegate (vetoes names starting with 'veto') and alive delegate (filters 'filt') on/off; remote state lists of 0-64 rows over "
+          "a name pool with duplicates, the receiver itself and its members, all four states, incarnations around the held one, version vectors drawn "
+          "byte-wise from {0,1,2,3,5,6,255} or short/absent, other addresses; user state 0-64 KiB; the direction towards the real node is cut at a "
+          "generated byte offset (0, 1, 2, 1%, 50%, 90%, 99%, last byte, anywhere) by reset / EOF / stall, or sealed under a foreign key, the wrong label, "
+          "sent in clear, or declares over-cap node counts / state sizes. Oracle: for every certain rejection cause (cut, authentication, cap, veto, two "
+          "alive full-vector nodes whose current version lies outside the other's range) the node's state dump, Members(), event log and MergeRemoteState log "
+          "are unchanged and Join returns an error with 0 successes; when Join reports success the joiner lists the host and every reported-alive row that "
+          "passes its own filters; a dead/suspect row about a held member never removes it before the minimum suspicion timeout and a refutation keeps it. "
+          "mutuality: a real joiner and a real host with 0-4 members: at Join's return the joiner lists everything the host listed, and with the network "
+          "frozen the host lists the joiner once its handler finished. non-trivial = cut strictly inside the message / rejected non-empty list / hearsay / "
+          "successful join; distinct = distinct plans"),
+    tests=[
+        dict(name="aon", run="^TestAllOrNothing$", quick=dict(shards=12, checks=250, timeout=600), thorough=dict(shards=12, checks=8000, timeout=3400)),
+        dict(name="mutual", run="^TestMutualJoin$", quick=dict(shards=4, checks=60, timeout=600), thorough=dict(shards=4, checks=2000, timeout=3000)),
+    ],
+    required_labels=dict(both=["TestAllOrNothing/hearsay", "TestAllOrNothing/rejected:stream cut", "TestAllOrNothing/rejected:vetoed by the merge delegate",
+                               "TestAllOrNothing/rejected:incompatible versions", "TestAllOrNothing/join-ok", "TestAllOrNothing/merged"]),
+    assumptions=PUPPET_ASSUMPTIONS + ["acceptance of an exchange is never asserted from the version model, only the certain rejections are"],
+)
